@@ -386,9 +386,9 @@ func (c *cmp) single(n *JNode, fd protoreflect.FieldDescriptor, v protoreflect.V
 // standard base64, enums as numbers, map keys stringified — the forms dynamicgo's own p2j emits/documents.
 
 type ROpts struct {
-	JSONNames bool // address members by JSON name instead of field name
-	Reverse   bool // members in reverse declaration order
-	Defaults  bool // also write members for unpopulated fields: scalar defaults, [] and {} (message fields stay absent)
+	JSONNames bool         // address members by JSON name instead of field name
+	Reverse   bool         // members in reverse declaration order
+	Defaults  bool         // also write members for unpopulated fields: scalar defaults, [] and {} (message fields stay absent)
 	Feat      *DocFeatures // if set, filled with syntactic features of the rendered document
 	// Members, if set, may rewrite the member list ("key":value strings) of every message object.
 	Members func(m protoreflect.Message, depth int, members []string) []string
